@@ -21,6 +21,7 @@ import (
 	"fmt"
 	"math/rand"
 	"os"
+	"net"
 	"reflect"
 	"sort"
 	"testing"
@@ -28,8 +29,11 @@ import (
 	"github.com/go-kit/log"
 	metallbv1beta1 "go.universe.tf/metallb/api/v1beta1"
 	metallbv1beta2 "go.universe.tf/metallb/api/v1beta2"
+	"go.universe.tf/metallb/internal/allocator"
 	"go.universe.tf/metallb/internal/config"
+	"go.universe.tf/metallb/internal/ipfamily"
 	corev1 "k8s.io/api/core/v1"
+	metav1 "k8s.io/apimachinery/pkg/apis/meta/v1"
 	"k8s.io/apimachinery/pkg/types"
 	"k8s.io/client-go/kubernetes/scheme"
 	"sigs.k8s.io/controller-runtime/pkg/client"
@@ -150,6 +154,10 @@ func TestVerifOrder(t *testing.T) {
 		}
 		sn := vGenSnap(r, o)
 		sn.DualClash = o.DualClash
+		if i%10 == 5 {
+			// the verdict hinges on validateConfig's walk over the ByName map (BFD echo rule)
+			sn = vGenEchoMix(r, 1+(i/10)%8)
+		}
 		snaps = append(snaps, sn)
 	}
 	id := 0
@@ -170,6 +178,19 @@ func TestVerifOrder(t *testing.T) {
 				out.Stat("dualclash_lengths_differ_in_"+k+"_accepted", 1)
 			} else {
 				out.Stat("dualclash_lengths_differ_in_"+k+"_rejected", 1)
+			}
+		}
+		if s.EchoMix > 0 {
+			out.Stat(fmt.Sprintf("echomix_variant_%d", s.EchoMix), 1)
+			if s.WantEcho {
+				out.Stat("echomix_must_be_refused", 1)
+			} else {
+				out.Stat("echomix_must_be_accepted", 1)
+			}
+			// the verdict itself, from the rule: refused iff a pool containing IPv6 is advertised
+			// to a peer whose BFD profile has echo mode
+			if (err0 != nil) != s.WantEcho {
+				out.Fail("config-bfd-echo-rule-verdict", fmt.Sprintf("layout %d of the BFD-echo rule: want refused=%v, config.For (FRR validator) says err=%v", s.EchoMix, s.WantEcho, err0), map[string]any{"snap": s})
 			}
 		}
 		if len(s.Pools) >= 3 && len(s.BGP) >= 3 {
@@ -258,6 +279,7 @@ func TestVerifOrder(t *testing.T) {
 		}
 	}
 	vReconcilerSkips(t, out, r, append(replayed, vCorpus()[1]))
+	vReconcilerAllocator(t, out, r, replayed)
 }
 
 // reconcilers skip the handler when the new configuration equals the current
@@ -407,5 +429,218 @@ func vReconcilerSkips(t *testing.T, out *vOut, r *rand.Rand, first []vSnap) {
 		if len(pools) > 0 && len(cfgs) > 0 && !reflect.DeepEqual(cfgs[0].Pools.ByNamespace, pools[0].ByNamespace) {
 			out.Fail("reconciler-config-depends-on-list-order", "PoolReconciler and ConfigReconciler compute different Pools.ByNamespace from the same objects", replay)
 		}
+	}
+}
+
+// The PoolReconciler with the handler the controller really installs (controller/main.go
+// SetPools: hand the pools to the allocator, answer ReprocessAll) and real allocator activity
+// between reconciles.  The *config.Pools given to the handler is the value the reconciler
+// remembers and compares (reflect.DeepEqual) with the next computed one: whatever the
+// allocator does with it must leave it equal to a fresh computation, otherwise every
+// unrelated event calls SetPools again and re-syncs every service.
+// (The speaker-side consumers of ConfigReconciler live in package main of ./speaker and
+// cannot be imported here; that side keeps the stub handler of vReconcilerSkips.)
+func vReconcilerAllocator(t *testing.T, out *vOut, r *rand.Rand, first []vSnap) {
+	snaps := append([]vSnap(nil), first...)
+	for k := 0; k < 8; k++ {
+		snaps = append(snaps, vGenPinned(r, k))
+	}
+	for k := 0; k < 4; k++ {
+		for {
+			s := vGenSnap(r, vGenOpts{MinObj: 3, MaxObj: 5})
+			if _, err := vToConfig(vBuild(s), config.DontValidate); err == nil {
+				snaps = append(snaps, s)
+				break
+			}
+		}
+	}
+	for _, s := range snaps {
+		if _, err := vToConfig(vBuild(s), config.DontValidate); err != nil {
+			continue
+		}
+		res := vBuild(s)
+		for i := range res.Pools {
+			res.Pools[i].Namespace = testNamespace
+		}
+		for i := range res.Communities {
+			res.Communities[i].Namespace = testNamespace
+		}
+		fc0, err := newFakeClient(objectsFromResources(config.ClusterResources{Pools: res.Pools, Communities: res.Communities, Namespaces: res.Namespaces}))
+		if err != nil {
+			t.Fatalf("fake client: %v", err)
+		}
+		mode := 0
+		fc := interceptor.NewClient(fc0, interceptor.Funcs{
+			List: func(ctx context.Context, c client.WithWatch, list client.ObjectList, opts ...client.ListOption) error {
+				if err := c.List(ctx, list, opts...); err != nil {
+					return err
+				}
+				switch l := list.(type) {
+				case *metallbv1beta1.IPAddressPoolList:
+					vShuf(l.Items, mode, r)
+				case *metallbv1beta1.CommunityList:
+					vShuf(l.Items, mode, r)
+				case *corev1.NamespaceList:
+					vShuf(l.Items, mode, r)
+				}
+				return nil
+			}})
+		alloc := allocator.New(func(string) {})
+		calls, reloads := 0, 0
+		pr := &PoolReconciler{Client: fc, Logger: log.NewNopLogger(), Scheme: scheme.Scheme, Namespace: testNamespace,
+			ValidateConfig: config.DontValidate,
+			Handler: func(_ log.Logger, p *config.Pools) SyncState {
+				calls++
+				if p == nil || p.ByName == nil {
+					return SyncStateErrorNoRetry
+				}
+				alloc.SetPools(p)
+				return SyncStateReprocessAll
+			},
+			ForceReload: func() { reloads++ }}
+		req := reconcile.Request{NamespacedName: types.NamespacedName{Namespace: testNamespace, Name: "unrelated"}}
+		rec := func() {
+			if _, err := pr.Reconcile(context.TODO(), req); err != nil {
+				t.Fatalf("reconcile: %v", err)
+			}
+			out.Stat("oracle_evaluations", 1)
+		}
+		fresh := func() *config.Config {
+			var pl metallbv1beta1.IPAddressPoolList
+			var cl metallbv1beta1.CommunityList
+			var nl corev1.NamespaceList
+			if fc0.List(context.TODO(), &pl) != nil || fc0.List(context.TODO(), &cl) != nil || fc0.List(context.TODO(), &nl) != nil {
+				t.Fatalf("list")
+			}
+			c, err := toConfig(config.ClusterResources{Pools: pl.Items, Communities: cl.Items, Namespaces: nl.Items}, config.DontValidate)
+			if err != nil {
+				t.Fatalf("fresh toConfig: %v", err)
+			}
+			return c
+		}
+		var ops []string
+		check := func(stage string) bool {
+			replay := map[string]any{"snap": s, "allocator_ops": ops, "stage": stage}
+			if calls != 1 || reloads != 1 {
+				out.Fail("reconciler-unrelated-event-reloads", fmt.Sprintf("PoolReconciler with the controller's handler (allocator.SetPools): after %s the handler ran %d times and %d re-syncs were forced for one unchanged configuration (want 1, 1); allocator activity: %v", stage, calls, reloads, ops), replay)
+				return false
+			}
+			if f := fresh(); !reflect.DeepEqual(pr.currentConfig, f) {
+				out.Fail("reconciler-handler-mutates-remembered-config", fmt.Sprintf("PoolReconciler: after %s the configuration it remembers is no longer DeepEqual to one freshly computed from the same objects (differs in %s): the consumer changed it in place; allocator activity: %v", stage, vDiffPart(pr.currentConfig, f), ops), replay)
+				return false
+			}
+			return true
+		}
+		rec()
+		if !check("the first reconcile") {
+			continue
+		}
+		rec()
+		if !check("a repeated reconcile") {
+			continue
+		}
+		// ---- real allocator activity on services of the pinned namespaces and of others
+		cfg := pr.currentConfig
+		var poolNames []string
+		for n := range cfg.Pools.ByName {
+			poolNames = append(poolNames, n)
+		}
+		sort.Strings(poolNames)
+		nss := []string{vNsNames[1], vNsNames[2], vNsNames[0], "somewhere-else"}
+		fams := []ipfamily.Family{ipfamily.IPv4, ipfamily.IPv6, ipfamily.DualStack}
+		var live []string
+		for k := 0; k < 14; k++ {
+			ns := nss[r.Intn(len(nss))]
+			key := fmt.Sprintf("%s/svc-%d", ns, k)
+			svc := &corev1.Service{ObjectMeta: metav1.ObjectMeta{Namespace: ns, Name: fmt.Sprintf("svc-%d", k)}}
+			ports := []allocator.Port{{Proto: "tcp", Port: 80 + k}}
+			switch op := r.Intn(6); {
+			case op < 3:
+				f := fams[r.Intn(3)]
+				ips, err := alloc.Allocate(key, svc, f, ports, "", "")
+				ops = append(ops, fmt.Sprintf("Allocate(%s,%s)=%v,%v", key, f, ips, err != nil))
+				if err == nil {
+					live = append(live, key)
+					out.Stat("allocator_allocate_ok", 1)
+					if len(cfg.Pools.ByNamespace[ns]) >= 2 {
+						out.Stat("allocator_allocate_in_namespace_with_several_pinned_pools", 1)
+					}
+				}
+			case op < 4:
+				pn := poolNames[r.Intn(len(poolNames))]
+				f := fams[r.Intn(2)]
+				ips, err := alloc.AllocateFromPool(key, svc, f, pn, ports, "", "")
+				ops = append(ops, fmt.Sprintf("AllocateFromPool(%s,%s,%s)=%v,%v", key, f, pn, ips, err != nil))
+				if err == nil {
+					live = append(live, key)
+					out.Stat("allocator_allocatefrompool_ok", 1)
+				}
+			case op < 5 && len(live) > 0:
+				i := r.Intn(len(live))
+				alloc.Unassign(live[i])
+				ops = append(ops, "Unassign("+live[i]+")")
+				live = append(live[:i], live[i+1:]...)
+				out.Stat("allocator_unassign", 1)
+			default:
+				// Assign an explicit address: the first address of some pool CIDR
+				p := cfg.Pools.ByName[poolNames[r.Intn(len(poolNames))]]
+				c := p.CIDR[r.Intn(len(p.CIDR))]
+				ip := append(net.IP(nil), c.IP...)
+				err := alloc.Assign(key, svc, []net.IP{ip}, ports, "", "")
+				ops = append(ops, fmt.Sprintf("Assign(%s,%s)=%v", key, ip, err != nil))
+				if err == nil {
+					live = append(live, key)
+					out.Stat("allocator_assign_ok", 1)
+				}
+			}
+		}
+		out.Stat("reconciler_allocator_runs", 1)
+		for n, l := range cfg.Pools.ByNamespace {
+			_ = n
+			if len(l) >= 2 {
+				// priorities not in name order?
+				prev := -1
+				for _, pn := range l {
+					pr := 0
+					if sa := cfg.Pools.ByName[pn].ServiceAllocations; sa != nil {
+						pr = sa.Priority
+					}
+					if prev >= 0 && (pr != 0 && (prev == 0 || pr < prev)) {
+						out.Stat("reconciler_allocator_runs_priority_order_differs_from_name_order", 1)
+					}
+					prev = pr
+				}
+				break
+			}
+		}
+		// ---- unrelated events
+		mode = 0
+		rec()
+		if !check("allocator activity and a repeated reconcile") {
+			continue
+		}
+		mode = 1
+		rec()
+		if !check("allocator activity and a reconcile that lists the objects in reverse order") {
+			continue
+		}
+		mode = 2
+		rec()
+		if !check("allocator activity and a reconcile that lists the objects in random order") {
+			continue
+		}
+		selects := false // a namespace selector may legitimately pick up a new namespace
+		for _, p := range s.Pools {
+			selects = selects || (p.Alloc != nil && len(p.Alloc.NsSels) > 0)
+		}
+		if selects {
+			continue
+		}
+		out.Stat("reconciler_allocator_unrelated_namespace_created", 1)
+		if err := fc0.Create(context.TODO(), &corev1.Namespace{ObjectMeta: metav1.ObjectMeta{Name: "zz-unrelated-namespace"}}); err != nil {
+			t.Fatalf("create namespace: %v", err)
+		}
+		rec()
+		check("the creation of an unrelated namespace")
 	}
 }
